@@ -54,6 +54,8 @@ type SessionMetadatasState interface {
 	Create(id string, clientID string, connectedAt int64, lwt *packet.Publish, mountpoint string) error
 	Get(id string) (api.SessionMetadatas, error)
 	ByClientID(clientID string) (api.SessionMetadatas, error)
+	// ByClientIDInMountPoint resolves a client id inside one mount point: client ids are only unique per tenant.
+	ByClientIDInMountPoint(mountPoint, clientID string) (api.SessionMetadatas, error)
 	ByPeer(peer uint64) []api.SessionMetadatas
 	All() []api.SessionMetadatas
 	Delete(id string) error
